@@ -1,3 +1,85 @@
 //! Seam for Engine A of the C16 check: `lazy_static!` backed by `shuttle::sync::Once`.
+//!
+//! `vsync` / `vthread` are the targets of the *instrumented* build (sim/shuttle_i): when the
+//! library sources contain `std::sync::…`, `std::thread::…` or `thread_local!`, `./check`
+//! compiles a rewritten copy in which those paths point here, so that every lock, atomic access
+//! and thread-local becomes a scheduling point / per-simulated-thread object under shuttle.
+//! The unmodified repository has no such site; the rewrite is then the identity.
 pub use shuttle::lazy_static;
 pub use shuttle::lazy_static::*;
+
+/// Drop-in for `std::sync`: shuttle's scheduler-aware primitives, plus `OnceLock`/`LazyLock`
+/// (which shuttle does not provide) built on `shuttle::sync::Once`.
+pub mod vsync {
+    pub use shuttle::sync::*;
+    use std::cell::UnsafeCell;
+
+    /// `std::sync::OnceLock` whose initialisation race is decided by the shuttle scheduler.
+    /// The Once state is per execution, so every execution sees a first use.
+    pub struct OnceLock<T> {
+        once: shuttle::sync::Once,
+        val: UnsafeCell<Option<T>>,
+    }
+    unsafe impl<T: Send + Sync> Sync for OnceLock<T> {}
+    unsafe impl<T: Send> Send for OnceLock<T> {}
+    impl<T> OnceLock<T> {
+        pub const fn new() -> Self {
+            OnceLock { once: shuttle::sync::Once::new(), val: UnsafeCell::new(None) }
+        }
+        pub fn get(&self) -> Option<&T> {
+            if self.once.is_completed() {
+                unsafe { (*self.val.get()).as_ref() }
+            } else {
+                None
+            }
+        }
+        pub fn get_or_init<F: FnOnce() -> T>(&self, f: F) -> &T {
+            self.once.call_once(|| unsafe { *self.val.get() = Some(f()) });
+            unsafe { (*self.val.get()).as_ref().expect("OnceLock initialised") }
+        }
+        pub fn set(&self, value: T) -> Result<(), T> {
+            let mut v = Some(value);
+            self.once.call_once(|| unsafe { *self.val.get() = v.take() });
+            match v {
+                None => Ok(()),
+                Some(v) => Err(v),
+            }
+        }
+    }
+    impl<T> Default for OnceLock<T> {
+        fn default() -> Self {
+            Self::new()
+        }
+    }
+    impl<T: std::fmt::Debug> std::fmt::Debug for OnceLock<T> {
+        fn fmt(&self, f: &mut std::fmt::Formatter<'_>) -> std::fmt::Result {
+            f.write_str("OnceLock(..)")
+        }
+    }
+
+    /// `std::sync::LazyLock` on the same footing.
+    pub struct LazyLock<T, F = fn() -> T> {
+        cell: OnceLock<T>,
+        init: F,
+    }
+    unsafe impl<T: Send + Sync, F: Send + Sync> Sync for LazyLock<T, F> {}
+    impl<T, F: Fn() -> T> LazyLock<T, F> {
+        pub const fn new(f: F) -> Self {
+            LazyLock { cell: OnceLock::new(), init: f }
+        }
+        pub fn force(this: &Self) -> &T {
+            this.cell.get_or_init(|| (this.init)())
+        }
+    }
+    impl<T, F: Fn() -> T> std::ops::Deref for LazyLock<T, F> {
+        type Target = T;
+        fn deref(&self) -> &T {
+            LazyLock::force(self)
+        }
+    }
+}
+
+/// Drop-in for `std::thread`.
+pub mod vthread {
+    pub use shuttle::thread::*;
+}
